@@ -556,4 +556,6 @@ def run(src, out):
     optgen.run(src, out, hdr)
     import gpwgen
     gpwgen.run(src, out, hdr)
+    import ellgen
+    ellgen.run(src, out, hdr)
     return hdr
